@@ -28,7 +28,7 @@ BLANK_CHARS = " \t\r\n"
 
 def to_ms(t: Fraction, mode: str = "even") -> int:
   """seconds -> whole milliseconds, to the nearest; ties to even ("even") or upwards ("up")"""
-  x = Fraction(t) * 1000
+  x = t * 1000          # (no Fraction(t): t may be a symbolic rational in the proof tier)
   if mode == "even":
     return round(x)
   return floor(x + Fraction(1, 2))
